@@ -1,8 +1,34 @@
 """C06: server-side subscription records are truthful; acknowledged subscriptions are held."""
+from .. import annenv, monpass
 from . import anngen
 from .common import Mode1, judge
 
 INSTS = ["I1", "I2", "I3"]
+
+
+def long_ttl_traces():
+    """subscriptions with TTLs of one to three days, refreshed / stopped / re-added after more than a day (non-cyclic
+    instance: nothing else happens in between)"""
+    out = []
+    tc = anngen.TIMINGS["long"]
+    for ttl1 in (100000, 86401, 259200):
+        for gap in (86400, 90000, ttl1 - 1):
+            for how in ("refresh", "stop_readd", "reboot_readd", "refresh_forever"):
+                sub = {"ty": "sub", "svc": "s1", "eg": 1, "ctr": 0, "eps": ["e1"], "opts": [], "acc": True}
+                sched = [{"t": 0, "j": 0, "op": "ann_start"},
+                         {"t": 1, "j": 0, "op": "rx", "src": "a1", "mc": False, "sid": 1, "rb": True, "uc": True, "es": [dict(sub, ttl=ttl1)]}]
+                t2 = 1 + gap
+                if how == "stop_readd":
+                    sched.append({"t": t2, "j": 0, "op": "rx", "src": "a1", "mc": False, "sid": 2, "rb": True, "uc": True, "es": [dict(sub, ttl=0)]})
+                ttl2 = 16777215 if how == "refresh_forever" else 100000
+                sched.append({"t": t2, "j": 1, "op": "rx", "src": "a1", "mc": False, "sid": 1 if how == "reboot_readd" else 3, "rb": True,
+                              "uc": True, "es": [dict(sub, ttl=ttl2)]})
+                ev, _ = annenv.run_schedule(sched, tc, ["I1"], ann0=["I1"], rand=[0] * 4, t_extra=ttl1 + 100005)
+                cfg = annenv.mon_cfg(tc, ["I1"], ["I1"])
+                cfg["dsts"] = ["mc", "a1", "a2", "a3", "a4", "a5"]
+                out.append({"cfg": cfg, "ev": monpass.add_adv(ev), "sched": sched, "variant": "long", "ann0": ["I1"], "rand": [0] * 4,
+                            "insts": ["I1"], "t_extra": ttl1 + 100005, "diag": {"variant": "long TTL", "family": how}})
+    return out
 
 
 def check(ctx):
@@ -14,7 +40,7 @@ def check(ctx):
     m1.caught("SwD3", "C06_quick.cfg")
     traces = anngen.run(ctx.seed, ctx.pick(360, 6000), ctx.pick(8, 12), INSTS, list("ABDF"), tag="c06",
                         with_sub=True, with_find=False, stop_twice=False)
-    bad, ms = judge(ctx, "Mon_C06", traces, "subscribe histories", anngen.payload)
+    bad, ms = judge(ctx, "Mon_C06", traces + long_ttl_traces(), "subscribe histories", anngen.payload)
     sim = anngen.spec_to_code_ann(ctx, "Mon_C06", "C06_A", "C06_Inputs", "A", ["I1"], ["I1"], ctx.pick(20, 300))
     acc, total = anngen.conform_by_variant(ctx, traces, ctx.pick(100, 1000))
     cov = dict(states=m1.states, transitions=m1.trans, traces_validated_against_impl=acc, monitor_traces=len(traces),
